@@ -278,6 +278,19 @@ MALFORMED = [
     "R <- 'abc", 'R <- "abc', "R <- [abc", "R <- (a b", "R <- { x ", "R <- <a", "R <- a / / b", "R <- a ??", "R <- ?a", "R a b", "<- a",
     "R <- &", "R <- !", "R <- '\\q'", "R <- [\\q]", "R <- a )", "R <- a ]", "R <- a >", "R <- { { }", "R <- 'a' -", "R <- '\\8'", "R <- (a / ) )", "R <- [a", "R <- [[a", "R <- \"a", "R <- a b c <", "R <- a { ",
 ]
+# malformed at the level of the file header (whole texts): unclosed import block (closed paths, the last one followed by a
+# blank), unclosed import path, import without quotes, missing package name, missing `Peg`, unclosed parser state
+MALFORMED_FILES = [
+    "package p\n\nimport (\n\"strings\"\n\"unicode\" \ntype T Peg {\n}\n\nS <- 'a'\n",
+    "package p\n\nimport (\n\"strings\"\ntype T Peg {\n}\n\nS <- 'a'\n",
+    "package p\n\nimport (\nstr \"strings\" \n\ntype T Peg {\n}\n\nS <- 'a'\n",
+    "package p\n\nimport \"strings\n\ntype T Peg {\n}\n\nS <- 'a'\n",
+    "package p\n\nimport strings\n\ntype T Peg {\n}\n\nS <- 'a'\n",
+    "package\n\ntype T Peg {\n}\n\nS <- 'a'\n",
+    "package p\n\ntype T {\n}\n\nS <- 'a'\n",
+    "package p\n\ntype T Peg {\n N int\n\nS <- 'a'\n",
+    "package p\n\nimport (\n\"a\"\n) )\ntype T Peg {\n}\n\nS <- 'a'\n",
+]
 # the witnesses of the former finding E1 (repaired by fix 10b1614): now ordinary grammars with a documented meaning
 E1 = [("R", ("seq", [("lit", [("c", 97, "plain")]), ("lit", []), ("lit", [("c", 98, "plain")])]), "R <- 'a' '' 'b'"),
       ("R", ("seq", [("ilit", []), ("lit", [("c", 97, "plain")])]), 'R <- "" \'a\''),
@@ -499,6 +512,8 @@ def check(ctx):
     hdr = "package parser\n\ntype Parser Peg {\n T []string\n N int\n}\n"
     for k, bad in enumerate(MALFORMED):
         reqs.append(dict(id="bad%d" % k, text=hdr + bad + "\n", out="", inline=False, switch=False, noast=False))
+    for k, bad in enumerate(MALFORMED_FILES):
+        reqs.append(dict(id="badf%d" % k, text=bad, out="", inline=False, switch=False, noast=False))
     for k, (nm, body, w) in enumerate(E1):
         gid = "e1_%d" % k
         ids = {"R": 0}
@@ -574,6 +589,13 @@ def check(ctx):
             problems.append(("the front end panics on malformed text %r: %s" % (bad, r["panic"][:100]), {"text": hdr + bad}, True))
         elif not r.get("parse_err"):
             problems.append(("malformed text %r is accepted" % bad, {"text": hdr + bad, "raw": (r.get("raw") or "")[:500]}, True))
+    for k, bad in enumerate(MALFORMED_FILES):
+        r = res.get("badf%d" % k, {})
+        ev += 1
+        if r.get("panic"):
+            problems.append(("the front end panics on malformed text %r: %s" % (bad, r["panic"][:100]), {"text": bad}, True))
+        elif not r.get("parse_err"):
+            problems.append(("malformed text %r is accepted" % bad, {"text": bad, "raw": (r.get("raw") or "")[:500]}, True))
     for gid, cut in trunc:
         r = res.get("tr_" + gid, {})
         ev += 1
